@@ -292,6 +292,7 @@ func c10Spaces(tier string) []pairLeg {
 		add("hostile", thin(HostileDocs(), 120))
 		add("deep", Deep(true))
 		add("mixed", Mixed())
+		add("hostile-arrays", HostileArrays())
 	} else {
 		add("A2x6", Arr(2, "6"))
 		add("A4x123", Arr(4, "123"))
@@ -302,6 +303,7 @@ func c10Spaces(tier string) []pairLeg {
 		add("hostile", thin(HostileDocs(), 40))
 		add("deep", Deep(false))
 		add("mixed", Mixed())
+		add("hostile-arrays", HostileArrays())
 	}
 	return legs
 }
